@@ -409,6 +409,7 @@ func ruleIDHandling(c *chk.Ctx) {
 	}
 	// the member parser stores the raw id only on the isValidID true edge
 	n := 0
+	idPreds := map[*ssa.Function]bool{}
 	for _, f := range pkgFuncs(c, c.M.Pkg) {
 		if ir.RecvNamed(f) != c.M.Jmessage {
 			continue
@@ -430,8 +431,15 @@ func ruleIDHandling(c *chk.Ctx) {
 			valid := false
 			for _, cd := range ir.CondsAt(st.Block()) {
 				if call, ok := cd.V.(*ssa.Call); ok && cd.Truth {
-					if g := call.Call.StaticCallee(); g != nil && g.Name() == "isValidID" {
-						valid = true
+					g := call.Call.StaticCallee()
+					if g == nil || !c.P.InRepo[g] || g.Signature.Results().Len() != 1 || g.Signature.Results().At(0).Type().String() != "bool" {
+						continue
+					}
+					for _, a := range call.Call.Args {
+						if a == st.Val || ir.NormCell(a) == ir.NormCell(st.Val) {
+							valid = true
+							idPreds[g] = true
+						}
 					}
 				}
 			}
@@ -441,6 +449,29 @@ func ruleIDHandling(c *chk.Ctx) {
 	}
 	if n == 0 {
 		c.Undecided("TABLE.null", nil, "id store in parser", 0, "no id store found in the member parser")
+	}
+	// the validity predicate classifies the raw token; it does not run it through a numeric
+	// parser: every JSON number is a valid id, and strconv's integer and float parsers (and a
+	// decode into a Go number) reject some of them — fractions, exponents, values out of range
+	for g := range idPreds {
+		bad := ""
+		c.P.ExtInstrs(g, func(ins ssa.Instruction) {
+			call, ok := ins.(*ssa.Call)
+			if !ok {
+				return
+			}
+			callee := call.Call.StaticCallee()
+			if callee == nil || callee.Pkg == nil {
+				return
+			}
+			switch path := callee.Pkg.Pkg.Path(); {
+			case path == "strconv" && (strings.HasPrefix(callee.Name(), "Parse") || callee.Name() == "Atoi"):
+				bad = "strconv." + callee.Name() + " at " + c.P.Pos(call.Pos())
+			case path == "encoding/json" && (callee.Name() == "Unmarshal" || callee.Name() == "Decode"):
+				bad = "json." + callee.Name() + " at " + c.P.Pos(call.Pos())
+			}
+		})
+		c.Check(bad == "", "TABLE.null", g, "every JSON number is a valid id", g.Pos(), "the id predicate classifies the token without a numeric parser", "the id validity predicate runs the token through "+bad+": a request whose id is a JSON number that this parser rejects (a fraction, an exponent, a value out of range) would be refused and answered with id null")
 	}
 }
 
